@@ -54,15 +54,19 @@ def expected_keys(rec):
         b"\x04" + pk + b"\x00" + kind + tail,
     }
     may = set()
+    anyof = []
     for t in rec["tags"]:
         if indexable(t):
             v = t[1]
             if isinstance(v, str):
                 must.add(b"\x09" + t[0].encode() + b"\x00" + v.encode() + tail)
             else:
-                for r in {str(v), json.dumps(v)}:
-                    may.add(b"\x09" + t[0].encode() + b"\x00" + r.encode() + tail)
-    return must, may
+                # no rendering is specified for non-string values: one of these must be there
+                alts = {b"\x09" + t[0].encode() + b"\x00" + r.encode() + tail
+                        for r in {str(v), json.dumps(v), json.dumps(v, separators=(",", ":"))}}
+                may |= alts
+                anyof.append(alts)
+    return must, may, anyof
 
 
 class Kill(BaseException):
@@ -82,7 +86,10 @@ def st_event(draw):
             tags.append([name, draw(st.sampled_from(
                 [str(E.T0 - 1), str(E.T0), str(E.T0 + 1), str(E.T0 + 50), "abc", ""]))])
         elif which == 9:
-            tags.append([name, draw(st.sampled_from([1, True, None, 2.5, ["n"]]))])
+            v = draw(st.sampled_from([1, True, None, 2.5, ["n"], 0, False, 1.0]))
+            tags.append([name, v])
+            if draw(st.booleans()):  # a sibling that compares equal in Python but renders differently
+                tags.append([name, draw(st.sampled_from([1, True, 1.0, 0, False, "1", [["n"]]]))])
         elif which == 8:
             tags.append([name])
         elif which == 7:
@@ -150,9 +157,13 @@ class Coherence(Sub):
         must = set()
         may = set()
         for rec in records.values():
-            m, y = expected_keys(rec)
+            m, y, anyof = expected_keys(rec)
             must |= m
             may |= y
+            for alts in anyof:
+                if not (alts & actual):
+                    viol.append(V("kv-unindexed-record", "record lacks an index entry for a non-string tag value",
+                                  step=step, id=rec["id"], candidates=[a.hex() for a in sorted(alts)][:3]))
         missing = must - actual
         extra = actual - must - may
         for k in sorted(missing)[:3]:
